@@ -94,6 +94,11 @@ def impl(table, lon, lat, order, supplied_edges=None):
         # a source that ships its own edge table (MPAS/ICON style): arbitrary edge order and pair orientation
         kw["edge_node_connectivity"] = np.array(supplied_edges, dtype=np.intp)
     g = ux.Grid.from_topology(np.array(lon, float), np.array(lat, float), t.copy(), fill_value=FILL, **kw)
+    if order % 5 == 3:
+        # unrelated reads first (geometry helpers work on padded copies of the face table): the incidence tables derived
+        # afterwards must still describe the grid's faces
+        g.antimeridian_face_indices
+        g.face_areas
     names = ["node_face_connectivity", "edge_face_connectivity", "face_face_connectivity", "hole_edge_indices"]
     # different orders of first access
     k = order % 4
